@@ -55,7 +55,7 @@ theorem CycShape.run (j : Job) (T : Int) (s : DT) (n : Nat) (h : CycShape j T s 
       simp [Job.run, Job.calcNext, Job.exec1, h6, hdel, h7, h1]
     refine ⟨⟨tm, ht, h2, h3, ?_⟩, ?_, h6, hatt, h8⟩
     · rw [hd, hdel]; rw [hdel] at h4; simpa using h4
-    · simp [Job.run, Job.calcNext, Job.exec1, h6, hdel, h7, h1, argmin, argminAux]
+    · simp [Job.run, Job.calcNext, Job.exec1, h6, hdel, h7, h1, argmin]
   · have hc' : (!j.delay && j.attempts + 1 == 1) = false := by simpa using hc
     have ht : (j.run ref r).timers = [{ tm with next := tm.next.add T }] := by
       simp only [Job.run, Job.calcNext, Job.exec1, h6, hc', h1, h5]
@@ -75,7 +75,7 @@ theorem CycShape.run (j : Job) (T : Int) (s : DT) (n : Nat) (h : CycShape j T s 
         rw [coef_succ]
         apply coef; omega
     · simp only [Job.run, Job.calcNext, Job.exec1, h6, hc', h1, h5]
-      simp [List.modify, argmin, argminAux]
+      simp [List.modify, argmin]
 
 /-- **cadence**: a cyclic job with interval `T`, reference `s`, no `skip_missing`, polled at
     arbitrary instants `refs` (any gaps, any lateness): after all of them its due instant is
@@ -175,7 +175,7 @@ theorem C03.once_timedelta (tz : Option Int) (td : Int) (clock : Int) (j : Job)
     cases hs; rfl
   subst hs' hj
   refine ⟨?_, rfl⟩
-  cases tz <;> simp [Job.due, Job.pendingTimer, Job.build, Timer.init, Timer.calcNext, nowDT, DT.add, DT.inst, argmin, argminAux, standardize] <;> omega
+  cases tz <;> simp [Job.due, Job.pendingTimer, Job.build, Timer.init, Timer.calcNext, nowDT, DT.add, DT.inst, argmin, standardize] <;> omega
 
 /-- a one-shot given a clock time is due at the next such occurrence after its creation -/
 theorem C03.once_clock (tz : Option Int) (t : Tod) (hv : t.valid) (clock : Int) (j : Job)
@@ -194,7 +194,7 @@ theorem C03.once_clock (tz : Option Int) (t : Tod) (hv : t.valid) (clock : Int) 
   have hi : (nowDT tz clock).inst = clock := by cases tz <;> simp [nowDT, DT.inst]
   have := C01_first_due_aux (.daily t) rfl hv (nowDT tz clock) ha false
   rw [hi] at this
-  simpa [Job.due, Job.pendingTimer, Job.build, argmin, argminAux, standardize] using this
+  simpa [Job.due, Job.pendingTimer, Job.build, argmin, standardize] using this
 
 /-- a one-shot given a weekday trigger (any of the seven) is due at its next occurrence -/
 theorem C03.once_weekday (tz : Option Int) (wd : Int) (t : Tod) (hv : (Timing.weekly wd t).valid)
@@ -214,7 +214,7 @@ theorem C03.once_weekday (tz : Option Int) (wd : Int) (t : Tod) (hv : (Timing.we
   have hi : (nowDT tz clock).inst = clock := by cases tz <;> simp [nowDT, DT.inst]
   have := C01_first_due_aux (.weekly wd t) rfl hv (nowDT tz clock) ha false
   rw [hi] at this
-  simpa [Job.due, Job.pendingTimer, Job.build, argmin, argminAux, standardize] using this
+  simpa [Job.due, Job.pendingTimer, Job.build, argmin, standardize] using this
 
 /-! non-vacuity: a concrete cyclic job polled late and irregularly -/
 example : ((Job.build [.cyclic 10] { loc := 100, off := none } none true false 0).runs
